@@ -89,6 +89,9 @@ class World:
 
     def al(self, args, cwd, timeout=20):
         rc, out, err, dt = c05.aldor(self.exe, args, cwd, timeout)
+        if rc == 124 and timeout < 60:
+            # no exit within 20 s: on a loaded machine that may only be slowness -- one retry with 60 s decides
+            rc, out, err, dt = c05.aldor(self.exe, args, cwd, 60)
         return rc, out + err
 
     def build(self):
@@ -344,7 +347,7 @@ def run(rep, tier):
                 stage_seconds={"generate+proof": round(t1 - t0, 1), "build": round(t2 - t1, 1), "enumerate": round(t3 - t2, 1)})
     rep.assume(
         "outcome classes: fault = signal / exit >= 128 / 'Program fault' / 'Compiler bug' / 'Bug:' / abort / non-zero exit without diagnostic; "
-        "hang = no exit within 20 s; refused = non-zero exit with a diagnostic; same = exit status, stdout+stderr and generated C/Lisp identical to the intact run",
+        "hang = no exit within 20 s and, retried, none within 60 s; refused = non-zero exit with a diagnostic; same = exit status, stdout+stderr and generated C/Lisp identical to the intact run",
         "only header + section table are modelled (read_lib); other regions are enumerated without prediction",
         "the model prediction for a refusal includes the diagnostic text of the refusing check",
         "archive made with ar(1) holding the one unit; .fm read back through -Fc/-Flsp (and -ginterp for the printing unit)",
